@@ -224,9 +224,9 @@ pub fn suites(id: &str, tier: Tier) -> Vec<Suite> {
         "C06" => {
             let progs = with_abort(3);
             let mut v = vec![];
-            for host in [HostKind::Direct, HostKind::StreamPoll, HostKind::CoreCmd] {
-                v.push(Suite { name: "aborts+drops", host, programs: progs.clone(), bounds: bounds(tier.pick(6, 8), tier.pick(1, 2), 1, tier.pick(1, 2), 2) });
-            }
+            v.push(Suite { name: "aborts+drops", host: HostKind::Direct, programs: progs.clone(), bounds: bounds(tier.pick(6, 8), tier.pick(1, 2), 1, tier.pick(1, 2), 2) });
+            v.push(Suite { name: "aborts+drops", host: HostKind::StreamPoll, programs: progs.clone(), bounds: bounds(tier.pick(5, 8), tier.pick(1, 2), 1, tier.pick(1, 2), 2) });
+            v.push(Suite { name: "aborts+drops", host: HostKind::CoreCmd, programs: progs.clone(), bounds: bounds(tier.pick(5, 8), tier.pick(1, 2), 0, tier.pick(1, 2), 2) });
             if !q {
                 let basic = dsl::basic_atoms();
                 v.push(Suite { name: "aborts+drops/4-nodes-basic", host: HostKind::Direct, programs: dsl::terms_up_to(4, &basic, Grammar::with_abort()), bounds: bounds(7, 2, 1, 1, 2) });
@@ -240,7 +240,7 @@ pub fn suites(id: &str, tier: Tier) -> Vec<Suite> {
             progs.sort();
             progs.dedup();
             vec![
-                Suite { name: "done-iff-nothing-left", host: HostKind::Direct, programs: progs, bounds: bounds(tier.pick(7, 9), 0, tier.pick(1, 2), 1, 2) },
+                Suite { name: "done-iff-nothing-left", host: HostKind::Direct, programs: progs, bounds: bounds(tier.pick(6, 9), 0, tier.pick(1, 2), 1, 2) },
                 Suite { name: "done-iff-nothing-left/aborts", host: HostKind::Direct, programs: with_abort(2), bounds: bounds(tier.pick(7, 9), 1, 1, 1, 2) },
             ]
         }
@@ -332,6 +332,17 @@ pub fn run_suites(rep: &Reporter, suites: &[Suite], deadline_s: f64, node_cap: u
 }
 
 pub fn replay(path: &str) -> i32 {
+    if let Ok(text) = std::fs::read_to_string(path) {
+        if let Ok(v) = serde_json::from_str::<Value>(&text) {
+            if v["case"]["engine"] == "extra" {
+                let id = v["property"].as_str().unwrap_or("").to_string();
+                let rep = Reporter::new(&id, Tier::Quick);
+                let ran = extra_cases(&id, &rep);
+                println!("re-ran dedicated cases {ran:?}: {} violation key(s)", rep.violation_count());
+                return i32::from(rep.violation_count() > 0);
+            }
+        }
+    }
     let text = std::fs::read_to_string(path).unwrap_or_else(|e| mc_kit::machinery_error(&format!("cannot read {path}: {e}")));
     let v: Value = serde_json::from_str(&text).unwrap();
     let case = &v["case"];
@@ -374,4 +385,135 @@ pub fn replay(path: &str) -> i32 {
     }
     println!("  no divergence");
     0
+}
+
+// ---------------------------------------------------------------------------------------------
+// Dedicated cases for known findings K1 (C02, C06) and K2 (C07)
+
+pub fn extra_cases(id: &str, rep: &Reporter) -> Vec<Value> {
+    use crate::app::{Effect, Event, OpA, VApp, VOp};
+    use crux_core::Core;
+    let mut ran = vec![];
+    let core_resolve = |req: &mut Effect, core: &Core<VApp>, v: u32| -> Result<Result<usize, String>, mc_kit::PanicInfo> {
+        mc_kit::catch(|| match req {
+            Effect::CapA(r) => core.resolve(r, OpA::out(v)).map(|e| e.len()).map_err(|e| e.to_string()),
+            Effect::CapB(r) => core.resolve(r, crate::app::OpB::out(v)).map(|e| e.len()).map_err(|e| e.to_string()),
+        })
+    };
+    let report = |rep: &Reporter, what: &str, r: Result<Result<usize, String>, mc_kit::PanicInfo>, case: Value| match r {
+        Ok(Err(_)) => {} // rejected with an error value: what the property asks for
+        Ok(Ok(_)) => rep.violation(Violation {
+            key: "core-resolve/rejection-expected-but-accepted".into(),
+            what: format!("{what}: Core::resolve accepted a resolution that must be rejected"),
+            replay: case,
+            size: 1,
+        }),
+        Err(p) if p.message.contains("resolve_result.is_ok()") => rep.violation(Violation {
+            key: "core-resolve/debug-assert".into(),
+            what: format!("{what}: Core::resolve panics ({} at {}:{}) instead of returning the error (debug assertions on)", p.message, p.file, p.line),
+            replay: case,
+            size: 1,
+        }),
+        Err(p) => rep.violation(Violation {
+            key: format!("panic/{}", p.key()),
+            what: format!("{what}: panic {} at {}:{}", p.message, p.file, p.line),
+            replay: case,
+            size: 1,
+        }),
+    };
+    if id == "C02" {
+        // second resolution of a one-shot, and resolution of a notification, through Core::resolve
+        let core: Core<VApp> = Core::new();
+        let mut effs = core.process_event(Event::Start(P::All(vec![P::Req(S { id: 2, label: 2 }), P::Notify(S { id: 4, label: 4 })]).normalized()));
+        let case = json!({"engine": "extra", "case": "C02/core-resolve: second resolution of a one-shot and resolution of a notification through Core::resolve"});
+        let first = core_resolve(&mut effs[0], &core, 1);
+        if !matches!(first, Ok(Ok(_))) {
+            rep.violation(Violation { key: "core-resolve/first-resolution-rejected".into(), what: format!("{first:?}"), replay: case.clone(), size: 1 });
+        }
+        let second = core_resolve(&mut effs[0], &core, 2);
+        report(rep, "second resolution of a one-shot request", second, case.clone());
+        let notif = core_resolve(&mut effs[1], &core, 3);
+        report(rep, "resolution of a notification", notif, case.clone());
+        let log = core.view();
+        let got: Vec<_> = log.iter().filter(|e| matches!(e, Event::Out(_))).collect();
+        if got.len() != 1 {
+            rep.violation(Violation { key: "core-resolve/rejected-resolution-had-an-effect".into(), what: format!("log after the rejected resolutions: {log:?}"), replay: case.clone(), size: 1 });
+        }
+        ran.push(case);
+    }
+    if id == "C06" {
+        // late item for a stream whose consumer was aborted and cleaned up, through Core::resolve
+        let core: Core<VApp> = Core::new();
+        crate::build::clear_aborts();
+        let mut effs = core.process_event(Event::Start(P::abortable(0, P::All(vec![P::Stream(S { id: 2, label: 2 }), P::Req(S { id: 4, label: 4 })])).normalized()));
+        let case = json!({"engine": "extra", "case": "C06/core-resolve: stream item after the consumer was aborted and cleaned up, through Core::resolve"});
+        crate::build::fire_abort(0);
+        // a response to the sibling request wakes the aborted command, which is then cleaned up
+        let mut req = effs.remove(1);
+        let r1 = core_resolve(&mut req, &core, 1);
+        if !matches!(r1, Ok(Ok(_))) {
+            rep.violation(Violation { key: "core-resolve/late-one-shot-rejected".into(), what: format!("{r1:?}"), replay: case.clone(), size: 1 });
+        }
+        let late = core_resolve(&mut effs[0], &core, 2);
+        report(rep, "stream item after its consumer was cancelled", late, case.clone());
+        let log = core.view();
+        if log.iter().any(|e| matches!(e, Event::Out(_))) {
+            rep.violation(Violation { key: "cancelled-work/output-after-abort".into(), what: format!("log: {log:?}"), replay: case.clone(), size: 1 });
+        }
+        ran.push(case);
+    }
+    if id == "C07" {
+        // extended atom: a task awaiting a FuturesUnordered of shell requests
+        let case = json!({"engine": "extra", "case": "C07/futures-unordered: both requests of a FuturesUnordered dropped"});
+        let mut cmd = crate::build::build(&P::Unordered(S { id: 2, label: 2 }, S { id: 4, label: 4 }));
+        let effs: Vec<_> = cmd.effects().collect();
+        let n = effs.len();
+        drop(effs);
+        let done = cmd.is_done();
+        let live = cmd.verif_live_tasks();
+        if n != 2 {
+            rep.violation(Violation { key: "futures-unordered/requests".into(), what: format!("{n} requests"), replay: case.clone(), size: 1 });
+        }
+        if !done || live != 0 {
+            rep.violation(Violation {
+                key: "linger/futures-unordered".into(),
+                what: format!("all requests of the task were dropped, yet is_done() = {done} and {live} task(s) remain"),
+                replay: case.clone(),
+                size: 1,
+            });
+        }
+        // and the positive half: resolving both completes it
+        let mut cmd = crate::build::build(&P::Unordered(S { id: 2, label: 2 }, S { id: 4, label: 4 }));
+        let mut effs: Vec<_> = cmd.effects().collect();
+        for (i, e) in effs.iter_mut().enumerate() {
+            if let Effect::CapA(r) = e {
+                let _ = r.resolve(i as u32);
+            }
+        }
+        let evs: Vec<_> = cmd.events().collect();
+        if evs.len() != 2 || !cmd.is_done() {
+            rep.violation(Violation { key: "futures-unordered/resolved-not-done".into(), what: format!("events {evs:?}"), replay: case.clone(), size: 1 });
+        }
+        ran.push(case);
+    }
+    ran
+}
+
+/// Built-in canary: the reference is told a deliberately wrong program; the explorer must object.
+pub fn canary() -> Result<(), String> {
+    let real = P::then(P::Req(S { id: 2, label: 2 }), P::Req(S { id: 4, label: 4 }));
+    let lie = P::and(P::Req(S { id: 2, label: 2 }), P::Req(S { id: 4, label: 4 }));
+    let host = HostKind::Direct;
+    let mut h = crate::hosts::Host::new(host);
+    h.start(&real);
+    let obs = h.observe();
+    let mut chk = seqx::Checker::new(host, &lie);
+    if chk.apply_settle(&obs, false).is_ok() {
+        return Err("seqx canary: the checker accepted `then` as `and`".into());
+    }
+    let mut chk = seqx::Checker::new(host, &real);
+    if let Err(f) = chk.apply_settle(&obs, false) {
+        return Err(format!("seqx canary: the checker rejected the true program: {}", f.what));
+    }
+    Ok(())
 }
